@@ -47,8 +47,9 @@ type c08Pools struct {
 	files  []func() *fit.File // constructors: a fresh, identical File per call
 	// twinGroups: [first, last] input indices of a group of look-alike streams; the last one is
 	// the stream the library rejects
-	twinFirst  int
-	twinGroups [][2]int
+	twinFirst    int
+	twinGroups   [][2]int
+	lengthGroups [][2]int
 }
 
 var (
@@ -194,6 +195,21 @@ func c08Pool() *c08Pools {
 				ft := []byte{4, 6, 32, 4}[k]
 				return lib.GenFile(rng, lib.FileGenOpts{FileType: ft, MaxPerSlot: 4, Subset: 3, Phased: true, PhasedMin: 1024, PhasedSpan: 400})
 			})
+		}
+		// Groups of Files of one shape whose strings and arrays differ in length (also in fields
+		// for which the profile gives no size): whatever Encode derives from the first value it
+		// meets must not stay behind for the next File. Every history encodes one whole group.
+		for gi, ft := range []byte{34, 34, 4, 2, 5, 6, 1} {
+			first := len(c08P.files)
+			for v := 0; v < 3; v++ {
+				gi, ft, v := gi, ft, v
+				c08P.files = append(c08P.files, func() *fit.File {
+					f := lib.GenFile(lib.NewRand("C08.pool.lengths", uint64(gi)), lib.FileGenOpts{FileType: ft, MaxPerSlot: 3, Subset: 3})
+					lib.VaryLengths(f, v+gi)
+					return f
+				})
+			}
+			c08P.lengthGroups = append(c08P.lengthGroups, [2]int{first, len(c08P.files) - 1})
 		}
 	})
 	return &c08P
@@ -488,6 +504,16 @@ func c08History(h uint64) []string {
 		} else {
 			calls = append(calls, c08RandomCall(rng))
 		}
+	}
+	// one group of same-shape Files with different string / array lengths per history
+	if len(p.lengthGroups) > 0 {
+		lg := p.lengthGroups[rng.Intn(len(p.lengthGroups))]
+		pos := rng.Intn(len(calls))
+		var ins []string
+		for _, i := range rng.Perm(lg[1] - lg[0] + 1) {
+			ins = append(ins, fmt.Sprintf("E:%d:%d", lg[0]+i, rng.Intn(2)))
+		}
+		calls = append(calls[:pos], append(ins, calls[pos:]...)...)
 	}
 	// one twin group per history: the valid look-alikes, then the stream that must be rejected
 	if len(p.twinGroups) > 0 {
